@@ -27,9 +27,12 @@ The invariants are stated exactly as the healthy tree realises them (learnt from
       + every other numeric column that the data shows to be used that way (at least two values and at least half
       of its non-null values name a block owned by their row);
   I6  rows with parent 0 are `*_decl` or import/export/type-alias rows (add_main_func's own classification);
-      at most one `%unit_init` per unit; every other row has a `method_decl` among its ancestors (class
-      initialisers `%class_init/%class_sinit` are method_decl rows too) unless it is itself a declaration
-      (field/parameter/nested type declarations live in `fields`/`parameters`/`nested` blocks of their owner);
+      at most one `%unit_init` per unit; every other row has among its ancestors a `method_decl` (the class
+      initialisers `%class_init/%class_sinit/%static_init_class%` are method_decl rows) or a block named by the
+      `init`/`static_init` attribute of a class-like declaration (the documented class-initialiser blocks of
+      the TypeScript/Ruby/smali frontends), unless it is itself a declaration (`*_decl`, `enum_constant`:
+      field/parameter/nested type declarations live in `fields`/`parameters`/`nested`/... blocks of their owner).
+      The signature names the innermost enclosing declaration whose body was lowered without a method;
       direct children of `%unit_init`, mapped through their start position to the root child of the syntax tree
       that contains them, come in non-decreasing child order (rows of sub-expressions precede their statement
       but stay inside the same root child); the ids in the bundle are exactly the ids flatten produced plus the
@@ -42,19 +45,40 @@ MARKERS = ("block_start", "block_end")
 TOP_EXCLUDE = ("import_stmt", "from_import_stmt", "export_stmt", "type_alias_decl")   # basic.add_main_func
 UNIT_INIT = "%unit_init"
 
-# documented / observed body-valued attributes (docs/en/03.frontend/3-2.gir.md and the parsers)
-DOCUMENTED_BODY_COLUMNS = {
-    "body", "then_body", "else_body", "init_body", "condition_prebody", "update_body", "parameters", "fields",
-    "methods", "nested", "static_init", "init", "catch_body", "final_body", "type_parameters", "enum_constants",
-    "member_methods", "member_fields", "step_body", "condition_body", "default_body", "prebody", "postbody",
+# body-valued attributes as documented in docs/en/03.frontend/3-2.gir.md (operation -> attributes holding a body)
+_CLASS_LIKE = ("static_init", "init", "fields", "methods", "nested")
+DOCUMENTED_BODY_PAIRS = {
+    "namespace_decl": ("body",), "class_decl": _CLASS_LIKE, "record_decl": _CLASS_LIKE,
+    "interface_decl": _CLASS_LIKE, "enum_decl": _CLASS_LIKE, "annotation_type_decl": _CLASS_LIKE,
+    "struct_decl": ("fields",), "method_decl": ("parameters", "body"), "if_stmt": ("then_body", "else_body"),
+    "dowhile_stmt": ("body",), "while_stmt": ("body", "else_body"),
+    "for_stmt": ("init_body", "condition_prebody", "update_body", "body"), "forin_stmt": ("body",),
+    "for_value_stmt": ("body",), "switch_stmt": ("body",), "case_stmt": ("body",), "default_stmt": ("body",),
+    "try_stmt": ("body", "catch_body", "else_body", "final_body"), "catch_stmt": ("body",),
+    "catch_clause": ("body",), "unsafe_block": ("body",), "block": ("body",), "switch_type_stmt": ("body",),
+}
+# column names that hold block ids whenever they hold a number (documented ones + those every frontend dump showed)
+DOCUMENTED_BODY_COLUMNS = {c for cols in DOCUMENTED_BODY_PAIRS.values() for c in cols} | {
+    "member_methods", "enum_constants", "annotation_type_elements",
 }
 # columns that are numeric but are positions / cross references, never block ids
 NEVER_BODY = {"operation", "stmt_id", "parent_stmt_id", "unit_id", "start_row", "start_col", "end_row", "end_col",
               "original_stmt", "decorators", "index"}
 
 
+# rows that declare something although their operation is not spelled *_decl
+DECLARATIVE_EXTRA = ("enum_constant",)
+# blocks named by these attributes of a class-like declaration are the documented class-initialiser blocks
+INITIALISER_COLUMNS = ("init", "static_init")
+
+
 def is_decl_like(op):
+    """add_main_func's own classification of what may stay at top level."""
     return op.endswith("_decl") or op in TOP_EXCLUDE
+
+
+def is_declarative(op):
+    return is_decl_like(op) or op in DECLARATIVE_EXTRA
 
 
 # ---------------------------------------------------------------------------------------------------
@@ -62,7 +86,7 @@ def is_decl_like(op):
 
 class UnitRecord:
     __slots__ = ("unit_id", "path", "lang", "status", "nrows", "sig_exc", "sig_fn", "where", "message", "tb",
-                 "top", "has_error", "flat_ids", "flat_ops", "calls")
+                 "top", "has_error", "flat_ids", "flat_ops", "calls", "rows")
 
     def __init__(self, unit_id, path, lang):
         self.unit_id, self.path, self.lang = unit_id, path, lang
@@ -74,6 +98,7 @@ class UnitRecord:
         self.flat_ids = None
         self.flat_ops = None
         self.calls = 0
+        self.rows = None             # the row dicts handed to the loader (kept only when asked for)
 
 
 class Recorder:
@@ -84,6 +109,7 @@ class Recorder:
         self.wrapper_calls = 0
         self.parse_gir_calls = 0
         self.flatten_calls = 0
+        self.save_errors = []        # (path, "Type: message") of feather writes that raised (lian swallows them)
 
 
 def innermost_lian_frame(tb, src_root):
@@ -102,7 +128,7 @@ def exception_signature(lang, exc_type_name, fn):
     return f"crash:{lang}:{exc_type_name}@{fn}"
 
 
-def install(rec, contain=True, repo=None):
+def install(rec, contain=True, repo=None, keep_rows=False):
     from lian.lang import lang_analysis, common_parser
     src_root = os.path.realpath(os.path.join(repo, "src", "lian")) if repo else \
         os.path.dirname(os.path.dirname(os.path.realpath(lang_analysis.__file__)))
@@ -144,6 +170,8 @@ def install(rec, contain=True, repo=None):
         rows = res[1] if isinstance(res, tuple) and len(res) == 2 else None
         if rows:
             u.status, u.nrows = "gir", len(rows)
+            if keep_rows:
+                u.rows = rows
         else:
             u.status = "nogir"
         return res
@@ -179,6 +207,17 @@ def install(rec, contain=True, repo=None):
                 u.flat_ids = None
         return res
 
+    import pandas as pd
+    orig_to_feather = pd.DataFrame.to_feather
+
+    def to_feather(self, path, *a, **kw):
+        try:
+            return orig_to_feather(self, path, *a, **kw)
+        except Exception as e:
+            rec.save_errors.append((str(path), f"{type(e).__name__}: {e}"[:400]))
+            raise
+
+    pd.DataFrame.to_feather = to_feather
     lang_analysis.GIRParser.deal_with_file_unit = deal_with_file_unit
     common_parser.Parser.parse_gir = parse_gir
     lang_analysis.GIRProcessing.flatten = flatten
@@ -250,6 +289,7 @@ def judge(df, rec, unit_lang):
 
     # ---- numeric candidate columns: (row index -> [(column, int value)]) ------------------------------------
     refs = {}
+    nonblock = {}      # row index -> [(documented body attribute, non-numeric value)]
     col_nonnull = {}
     for c in cols:
         if c in NEVER_BODY:
@@ -264,10 +304,17 @@ def judge(df, rec, unit_lang):
         elif kind == "O":
             lst = s.tolist()
             idx, vals = [], []
+            doc = c in DOCUMENTED_BODY_COLUMNS
             for i, v in enumerate(lst):
-                if isinstance(v, (int, float)) and not isinstance(v, bool) and v == v:
-                    idx.append(i)
-                    vals.append(v)
+                if isinstance(v, (int, float)) and not isinstance(v, bool):
+                    if v == v:
+                        idx.append(i)
+                        vals.append(v)
+                elif doc and v is not None and not (isinstance(v, str) and v == ""):
+                    # a non-numeric value in a column documented as body-valued: judged below for the
+                    # documented (operation, attribute) pairs only
+                    if c in DOCUMENTED_BODY_PAIRS.get(op[i], ()):
+                        nonblock.setdefault(i, []).append((c, v))
         else:
             continue
         if not idx:
@@ -385,8 +432,14 @@ def judge(df, rec, unit_lang):
                               f"{(sid[owner], op[owner]) if owner is not None else None}", b)
                     broken = True
                     break
-                in_m = (stack[-1][1] if stack else False) or op[owner] == "method_decl"
-                stack.append([b, in_m, owner])
+                col = None
+                for c, iv, raw in refs.get(owner, ()):
+                    if iv == b:
+                        col = c
+                        break
+                in_m = ((stack[-1][1] if stack else False) or op[owner] == "method_decl"
+                        or (col in INITIALISER_COLUMNS and str(op[owner]).endswith("_decl")))
+                stack.append([b, in_m, owner, col])
                 last_stmt.append(None)
                 info["blocks"] += 1
             elif o == "block_end":
@@ -429,11 +482,18 @@ def judge(df, rec, unit_lang):
                                   sid[i])
                     if o == "method_decl" and name[i] == UNIT_INIT:
                         unit_init_rows.append(i)
-                elif not stack[-1][1] and not is_decl_like(str(o)):
-                    chain = "/".join(str(op[f[2]]) for f in stack)
-                    V.violate("I6", u, cons,
-                              f"{o} {sid[i]} has no method_decl among its ancestors (enclosing statements: {chain})",
-                              sid[i])
+                elif not stack[-1][1] and not is_declarative(str(o)):
+                    chain = "/".join(f"{op[f[2]]}.{f[3]}" for f in stack)
+                    # the construct whose body the frontend lowered without wrapping it into a method:
+                    # the innermost enclosing declaration
+                    encl = stack[0]
+                    for f in reversed(stack):
+                        if is_decl_like(str(op[f[2]])):
+                            encl = f
+                            break
+                    V.violate("I6", u, f"{op[encl[2]]}.{encl[3]}",
+                              f"{o} {sid[i]} lies in no method and no class-initialiser block "
+                              f"(enclosing constructs: {chain})", sid[i])
         if not broken and stack:
             b = stack[-1][0]
             owner = stack[-1][2]
@@ -453,6 +513,11 @@ def judge(df, rec, unit_lang):
                 continue
             mine = owned.get(i, ())
             named = set()
+            for c, raw in nonblock.get(i, ()):
+                V.add("I5 body-valued attributes checked")
+                V.violate("I5", u, f"{_construct(str(op[i]), name[i])}.{c}",
+                          f"{op[i]} {sid[i]}: attribute {c} is documented to hold a body but holds "
+                          f"{str(raw)[:80]!r}, which names no block", sid[i])
             for c, iv, raw in refs.get(i, ()):
                 if c in body_cols:
                     V.add("I5 body-valued attributes checked")
